@@ -281,8 +281,32 @@ Lemma get_path_child T p kd cs i c :
   get_path T p = Some (Node kd cs) -> nth_error cs i = Some c -> get_path T (p ++ [i]) = Some c.
 Proof. intros H E. rewrite get_path_app, H. cbn [get_path children]. now rewrite E. Qed.
 
+(* what the removal of the children [lo, hi) of the node (tid, p) does to the handles of its other
+   children (and below): those in front stay, those behind move down *)
+Definition cut_map (F : hnd -> hnd) (tid : nat) (p : list nat) (lo hi : nat) : Prop :=
+  (forall c rest, c < lo -> F (mk_hnd tid (p ++ c :: rest)) = mk_hnd tid (p ++ c :: rest)) /\
+  (forall c rest, hi <= c -> F (mk_hnd tid (p ++ c :: rest)) = mk_hnd tid (p ++ (c - (hi - lo)) :: rest)).
+Lemma cut_map_id tid p k : cut_map (fun g => g) tid p k k.
+Proof. split; intros c rest H; [reflexivity|]. now rewrite Nat.sub_diag, Nat.sub_0_r. Qed.
+Lemma cut_map_detach tid p i new : cut_map (rebase_detach tid p i new) tid p i (S i).
+Proof.
+  split; intros c rest H.
+  - now apply rebase_detach_before.
+  - rewrite rebase_detach_after by lia. replace (S i - i) with 1 by lia. reflexivity.
+Qed.
+Lemma cut_map_bounds F tid p lo hi lo' hi' : lo = lo' -> hi = hi' -> cut_map F tid p lo hi -> cut_map F tid p lo' hi'.
+Proof. now intros -> ->. Qed.
+(* two cuts, the second one (in the new positions) around the seam the first one left *)
+Lemma cut_map_comp F1 F2 tid p lo hi lo2 hi2 : cut_map F1 tid p lo hi -> cut_map F2 tid p lo2 hi2 ->
+  lo2 <= lo -> lo <= hi2 -> lo <= hi -> cut_map (fun g => F2 (F1 g)) tid p lo2 (hi2 + (hi - lo)).
+Proof.
+  intros [A1 B1] [A2 B2] H1 H2 H3. split; intros c rest H.
+  - rewrite A1 by lia. now apply A2.
+  - rewrite B1 by lia. rewrite B2 by lia. f_equal. f_equal. f_equal. lia.
+Qed.
+
 (* `while let Some(n) = self.0.next_sibling_or_token() { n.detach() }`, k times *)
-Lemma detach_next_repeat k : forall ts rs r tid ri T p kd pre x post,
+Lemma detach_next_repeat_x k : forall ts rs r tid ri T p kd pre x post,
   nth_error rs r = Some (Some (mk_hnd tid (p ++ [length pre]))) ->
   nth_error ts tid = Some (mk_slot true ri T) ->
   get_path T p = Some (Node kd (pre ++ x :: post)) -> k <= length post ->
@@ -292,11 +316,13 @@ Lemma detach_next_repeat k : forall ts rs r tid ri T p kd pre x post,
     nth_error ts' tid = Some (mk_slot true ri (upd_path T p (fun _ => Node kd (pre ++ x :: skipn k post)))) /\
     (forall j, j <> tid -> j < length ts -> nth_error ts' j = nth_error ts j) /\
     F (mk_hnd tid (p ++ [length pre])) = mk_hnd tid (p ++ [length pre]) /\
-    (forall g, above tid p g -> F g = g).
+    (forall g, above tid p g -> F g = g) /\
+    cut_map F tid p (S (length pre)) (S (length pre) + k).
 Proof.
   induction k as [|k IH]; intros ts rs r tid ri T p kd pre x post Hr HT HG Hk.
   - exists ts, (fun g => g). rewrite map_option_map_id. cbn [m_repeat skipn].
-    rewrite (upd_path_same _ _ _ HG). repeat split; auto.
+    rewrite (upd_path_same _ _ _ HG). split; [rdone|split; [|split; [|split; [|split; [|split]]]]]; auto.
+    eapply cut_map_bounds; [| |apply (cut_map_id tid p (S (length pre)))]; lia.
   - destruct post as [|y post']; [cbn in Hk; lia|]. cbn in Hk.
     assert (HGy : get_path T (p ++ [S (length pre)]) = Some y).
     { eapply get_path_child; [exact HG|]. rewrite nth_error_app2 by lia.
@@ -315,8 +341,9 @@ Proof.
     assert (HG1 : get_path (upd_path T p (fun _ => Node kd (pre ++ x :: post'))) p = Some (Node kd (pre ++ x :: post')))
       by (now apply get_path_upd_path with (n := Node kd (pre ++ x :: y :: post'))).
     destruct (IH ts1 (map (option_map F1) rs) r tid ri _ p kd pre x post' Hr1 T1 HG1 ltac:(lia))
-      as (ts' & F2 & R2 & L2 & T2 & O2 & S2 & A2).
-    exists ts', (fun g => F2 (F1 g)). rewrite <- map_option_map_comp. repeat split.
+      as (ts' & F2 & R2 & L2 & T2 & O2 & S2 & A2 & C2).
+    exists ts', (fun g => F2 (F1 g)). rewrite <- map_option_map_comp.
+    split; [|split; [|split; [|split; [|split; [|split]]]]].
     + cbn [m_repeat]. rbind; [|exact R2].
       unfold m_detach_next. rbind; [apply runs_get_reg; exact Hr|]. rewrite parent_h_app.
       unfold child_h. cbn [h_tid h_path]. rbind; [exact R1|]. rdone.
@@ -325,10 +352,27 @@ Proof.
     + intros j Hj Hl. rewrite O2 by lia. now apply O1.
     + unfold F1 at 1. rewrite rebase_detach_before by lia. exact S2.
     + intros g Hg. unfold F1. rewrite rebase_detach_above by exact Hg. now apply A2.
+    + eapply cut_map_bounds; [reflexivity| |eapply cut_map_comp; [apply cut_map_detach|exact C2|..]]; lia.
+Qed.
+Lemma detach_next_repeat k : forall ts rs r tid ri T p kd pre x post,
+  nth_error rs r = Some (Some (mk_hnd tid (p ++ [length pre]))) ->
+  nth_error ts tid = Some (mk_slot true ri T) ->
+  get_path T p = Some (Node kd (pre ++ x :: post)) -> k <= length post ->
+  exists ts' F,
+    runs (m_repeat k (m_detach_next r)) (mk_state ts rs) tt (mk_state ts' (map (option_map F) rs)) /\
+    length ts <= length ts' /\
+    nth_error ts' tid = Some (mk_slot true ri (upd_path T p (fun _ => Node kd (pre ++ x :: skipn k post)))) /\
+    (forall j, j <> tid -> j < length ts -> nth_error ts' j = nth_error ts j) /\
+    F (mk_hnd tid (p ++ [length pre])) = mk_hnd tid (p ++ [length pre]) /\
+    (forall g, above tid p g -> F g = g).
+Proof.
+  intros ts rs r tid ri T p kd pre x post Hr HT HG Hk.
+  destruct (detach_next_repeat_x k ts rs r tid ri T p kd pre x post Hr HT HG Hk) as (ts' & F & R & L & T' & O & S & A & _).
+  exists ts', F. auto 10.
 Qed.
 
 (* `while let Some(n) = self.0.prev_sibling_or_token() { n.detach() }`, once per element of [gone] *)
-Lemma detach_prev_repeat gone : forall ts rs r tid ri T p kd pre0 x post,
+Lemma detach_prev_repeat_x gone : forall ts rs r tid ri T p kd pre0 x post,
   nth_error rs r = Some (Some (mk_hnd tid (p ++ [length pre0 + length gone]))) ->
   nth_error ts tid = Some (mk_slot true ri T) ->
   get_path T p = Some (Node kd (pre0 ++ gone ++ x :: post)) ->
@@ -338,11 +382,13 @@ Lemma detach_prev_repeat gone : forall ts rs r tid ri T p kd pre0 x post,
     nth_error ts' tid = Some (mk_slot true ri (upd_path T p (fun _ => Node kd (pre0 ++ x :: post)))) /\
     (forall j, j <> tid -> j < length ts -> nth_error ts' j = nth_error ts j) /\
     F (mk_hnd tid (p ++ [length pre0 + length gone])) = mk_hnd tid (p ++ [length pre0]) /\
-    (forall g, above tid p g -> F g = g).
+    (forall g, above tid p g -> F g = g) /\
+    cut_map F tid p (length pre0) (length pre0 + length gone).
 Proof.
   induction gone as [|y gone' IH] using rev_ind; intros ts rs r tid ri T p kd pre0 x post Hr HT HG.
   - exists ts, (fun g => g). rewrite map_option_map_id. cbn [m_repeat length app] in *.
-    rewrite (upd_path_same _ _ _ HG). rewrite Nat.add_0_r. repeat split; auto.
+    rewrite (upd_path_same _ _ _ HG). rewrite Nat.add_0_r. split; [rdone|split; [|split; [|split; [|split; [|split]]]]]; auto.
+    apply cut_map_id.
   - rewrite app_length in *. cbn [length] in *.
     replace (length pre0 + (length gone' + 1)) with (S (length pre0 + length gone')) in * by lia.
     replace (length gone' + 1) with (S (length gone')) by lia.
@@ -365,8 +411,9 @@ Proof.
                   = Some (Node kd (pre0 ++ gone' ++ x :: post)))
       by (now apply get_path_upd_path with (n := Node kd ((pre0 ++ gone') ++ y :: x :: post))).
     destruct (IH ts1 (map (option_map F1) rs) r tid ri _ p kd pre0 x post Hr1 T1 HG1)
-      as (ts' & F2 & R2 & L2 & T2 & O2 & S2 & A2).
-    exists ts', (fun g => F2 (F1 g)). rewrite <- map_option_map_comp. repeat split.
+      as (ts' & F2 & R2 & L2 & T2 & O2 & S2 & A2 & C2).
+    exists ts', (fun g => F2 (F1 g)). rewrite <- map_option_map_comp.
+    split; [|split; [|split; [|split; [|split; [|split]]]]].
     + cbn [m_repeat]. rbind; [|exact R2].
       unfold m_detach_prev. rbind; [apply runs_get_reg; exact Hr|]. rewrite parent_h_app.
       unfold child_h. cbn [h_tid h_path]. rbind; [exact R1|]. rdone.
@@ -376,6 +423,23 @@ Proof.
     + unfold F1 at 1. rewrite rebase_detach_after by lia.
       replace (S (length pre0 + length gone') - 1) with (length pre0 + length gone') by lia. exact S2.
     + intros g Hg. unfold F1. rewrite rebase_detach_above by exact Hg. now apply A2.
+    + eapply cut_map_bounds; [reflexivity| |eapply cut_map_comp; [apply cut_map_detach|exact C2|..]]; lia.
+Qed.
+Lemma detach_prev_repeat gone : forall ts rs r tid ri T p kd pre0 x post,
+  nth_error rs r = Some (Some (mk_hnd tid (p ++ [length pre0 + length gone]))) ->
+  nth_error ts tid = Some (mk_slot true ri T) ->
+  get_path T p = Some (Node kd (pre0 ++ gone ++ x :: post)) ->
+  exists ts' F,
+    runs (m_repeat (length gone) (m_detach_prev r)) (mk_state ts rs) tt (mk_state ts' (map (option_map F) rs)) /\
+    length ts <= length ts' /\
+    nth_error ts' tid = Some (mk_slot true ri (upd_path T p (fun _ => Node kd (pre0 ++ x :: post)))) /\
+    (forall j, j <> tid -> j < length ts -> nth_error ts' j = nth_error ts j) /\
+    F (mk_hnd tid (p ++ [length pre0 + length gone])) = mk_hnd tid (p ++ [length pre0]) /\
+    (forall g, above tid p g -> F g = g).
+Proof.
+  intros ts rs r tid ri T p kd pre0 x post Hr HT HG.
+  destruct (detach_prev_repeat_x gone ts rs r tid ri T p kd pre0 x post Hr HT HG) as (ts' & F & R & L & T' & O & S & A & _).
+  exists ts', F. auto 10.
 Qed.
 
 (* self.0.detach() of a node that has a parent *)
@@ -402,6 +466,33 @@ Proof.
     cbn [children set_children ekind]. now rewrite remove_nth_app_len.
   - replace (p ++ [length pre]) with (p ++ length pre :: []) by reflexivity. now rewrite rebase_detach_at.
   - intros g Hg. now apply rebase_detach_above.
+Qed.
+Lemma detach_reg_spec_x ts rs r tid ri T p kd pre x post :
+  nth_error rs r = Some (Some (mk_hnd tid (p ++ [length pre]))) ->
+  nth_error ts tid = Some (mk_slot true ri T) ->
+  get_path T p = Some (Node kd (pre ++ x :: post)) ->
+  exists ts' F,
+    runs (m_detach r) (mk_state ts rs) tt (mk_state ts' (map (option_map F) rs)) /\
+    length ts' = S (length ts) /\
+    nth_error ts' tid = Some (mk_slot true ri (upd_path T p (fun _ => Node kd (pre ++ post)))) /\
+    nth_error ts' (length ts) = Some (mk_slot true (length pre) x) /\
+    (forall j, j <> tid -> j < length ts -> nth_error ts' j = nth_error ts j) /\
+    F (mk_hnd tid (p ++ [length pre])) = mk_hnd (length ts) [] /\
+    (forall g, above tid p g -> F g = g) /\
+    cut_map F tid p (length pre) (S (length pre)).
+Proof.
+  intros Hr HT HG.
+  assert (HGx : get_path T (p ++ [length pre]) = Some x)
+    by (eapply get_path_child; [exact HG|apply nth_error_app_len]).
+  destruct (detach_h_spec ts rs tid ri T p _ x HT HGx) as (ts1 & R1 & L1 & T1 & N1 & O1).
+  exists ts1, (rebase_detach tid p (length pre) (length ts)).
+  split; [|split; [|split; [|split; [|split; [|split; [|split]]]]]]; auto.
+  - unfold m_detach. rbind; [apply runs_get_reg; exact Hr|]. rbind; [exact R1|]. rdone.
+  - rewrite T1. f_equal. f_equal. eapply upd_path_ext; [exact HG|].
+    cbn [children set_children ekind]. now rewrite remove_nth_app_len.
+  - replace (p ++ [length pre]) with (p ++ length pre :: []) by reflexivity. now rewrite rebase_detach_at.
+  - intros g Hg. now apply rebase_detach_above.
+  - apply cut_map_detach.
 Qed.
 
 (* ------------------------------------------------------------------ splice_children with one new child *)
@@ -1006,7 +1097,7 @@ Proof.
 Qed.
 
 (* ------------------------------------------------------------------ Entry::remove *)
-Lemma entry_remove_spec ts rs r tid ri T p kd pre x post cs' :
+Lemma entry_remove_spec_x ts rs r tid ri T p kd pre x post cs' :
   nth_error rs r = Some (Some (mk_hnd tid (p ++ [length pre]))) ->
   nth_error ts tid = Some (mk_slot true ri T) ->
   get_path T p = Some (Node kd (pre ++ x :: post)) ->
@@ -1018,15 +1109,19 @@ Lemma entry_remove_spec ts rs r tid ri T p kd pre x post cs' :
     (forall j, j <> tid -> j < length ts -> nth_error ts' j = nth_error ts j) /\
     (exists tn rn, F (mk_hnd tid (p ++ [length pre])) = mk_hnd tn [] /\
                    nth_error ts' tn = Some (mk_slot true rn x)) /\
-    (forall g, above tid p g -> F g = g).
+    (forall g, above tid p g -> F g = g) /\
+    cut_map F tid p (fst (entry_remove_range fixed (pre ++ x :: post) (length pre)))
+                    (snd (entry_remove_range fixed (pre ++ x :: post) (length pre))) /\
+    fst (entry_remove_range fixed (pre ++ x :: post) (length pre)) <= length pre /\
+    length pre < snd (entry_remove_range fixed (pre ++ x :: post) (length pre)).
 Proof.
   intros Hr HT HG Hcs. unfold entry_remove_cs in Hcs.
   rewrite firstn_app_len, skipn_S_app_len in Hcs.
   destruct (entry_remove_scan_next post) as [[k1 rc]| | |] eqn:Esc; try discriminate.
   pose proof (entry_remove_scan_next_le _ _ _ Esc) as Hk1.
   (* first loop *)
-  destruct (detach_next_repeat k1 ts rs r tid ri T p kd pre x post Hr HT HG Hk1)
-    as (ts1 & F1 & R1 & L1 & T1 & O1 & S1 & A1).
+  destruct (detach_next_repeat_x k1 ts rs r tid ri T p kd pre x post Hr HT HG Hk1)
+    as (ts1 & F1 & R1 & L1 & T1 & O1 & S1 & A1 & C1).
   set (T1' := upd_path T p (fun _ => Node kd (pre ++ x :: skipn k1 post))) in *.
   assert (HG1 : get_path T1' p = Some (Node kd (pre ++ x :: skipn k1 post)))
     by (now apply get_path_upd_path with (n := Node kd (pre ++ x :: post))).
@@ -1047,20 +1142,23 @@ Proof.
     inversion Hcs; subst cs'; clear Hcs.
     set (k3 := ws_prefix_len (skipn k1 post)) in *.
     assert (Hk3 : k3 <= length (skipn k1 post)) by apply ws_prefix_len_le.
-    destruct (detach_next_repeat k3 ts1 _ r tid ri T1' p kd pre x (skipn k1 post) Hr1 T1 HG1 Hk3)
-      as (ts2 & F2 & R2 & L2 & T2 & O2 & S2 & A2).
+    destruct (detach_next_repeat_x k3 ts1 _ r tid ri T1' p kd pre x (skipn k1 post) Hr1 T1 HG1 Hk3)
+      as (ts2 & F2 & R2 & L2 & T2 & O2 & S2 & A2 & C2).
     set (T2' := upd_path T1' p (fun _ => Node kd (pre ++ x :: skipn k3 (skipn k1 post)))) in *.
     assert (HG2 : get_path T2' p = Some (Node kd (pre ++ x :: skipn k3 (skipn k1 post))))
       by (now apply get_path_upd_path with (n := Node kd (pre ++ x :: skipn k1 post))).
     assert (Hr2 : nth_error (map (option_map F2) (map (option_map F1) rs)) r = Some (Some (mk_hnd tid (p ++ [length pre]))))
       by (rewrite (nth_error_map_reg F2 _ _ _ Hr1); now rewrite S2).
-    destruct (detach_reg_spec ts2 _ r tid ri T2' p kd pre x _ Hr2 T2 HG2)
-      as (ts3 & F3 & R3 & L3 & T3 & N3 & O3 & S3 & A3).
+    destruct (detach_reg_spec_x ts2 _ r tid ri T2' p kd pre x _ Hr2 T2 HG2)
+      as (ts3 & F3 & R3 & L3 & T3 & N3 & O3 & S3 & A3 & C3).
     exists ts3, (fun g => F3 (F2 (F1 g))).
     replace (map (option_map (fun g => F3 (F2 (F1 g)))) rs)
       with (map (option_map F3) (map (option_map F2) (map (option_map F1) rs)))
       by (now rewrite !map_option_map_comp).
-    repeat split.
+    assert (Erange := eq_refl (entry_remove_range fixed (pre ++ x :: post) (length pre))).
+    unfold entry_remove_range at 2 in Erange. rewrite firstn_app_len, skipn_S_app_len, Esc, Efirst in Erange.
+    rewrite Erange. cbn [fst snd].
+    split; [|split; [|split; [|split; [|split; [|split; [|split; [|split]]]]]]].
     + apply (Hhead (ret tt)). rbind; [exact R1|]. rbind; [exact R2|]. exact R3.
     + lia.
     + rewrite T3. f_equal. f_equal. unfold T2', T1'. rewrite (upd_path_const2 _ _ _ _ _ HG).
@@ -1068,6 +1166,10 @@ Proof.
     + intros j Hj Hl. rewrite O3 by lia. rewrite O2 by lia. now apply O1.
     + exists (length ts2), (length pre). split; [now rewrite S1, S2, S3|exact N3].
     + intros g Hg. rewrite A1, A2, A3; auto.
+    + eapply cut_map_bounds; [reflexivity| |apply (cut_map_comp (fun g => F2 (F1 g)) F3 tid p (S (length pre)) (S (length pre) + k3 + k1) (length pre) (S (length pre)))]; try lia.
+      eapply cut_map_bounds; [reflexivity| |apply (cut_map_comp F1 F2 tid p _ _ _ _ C1 C2)]; try lia. exact C3.
+    + lia.
+    + lia.
   - (* not the first: white space in front, and the comma if none was removed after *)
     inversion Hcs; subst cs'; clear Hcs.
     set (k2 := entry_remove_scan_prev rc pre) in *.
@@ -1080,20 +1182,23 @@ Proof.
       by (now rewrite <- Lpre0).
     assert (HG1' : get_path T1' p = Some (Node kd (pre0 ++ gone ++ x :: skipn k1 post)))
       by (rewrite app_assoc, <- Epre; exact HG1).
-    destruct (detach_prev_repeat gone ts1 _ r tid ri T1' p kd pre0 x (skipn k1 post) Hr1' T1 HG1')
-      as (ts2 & F2 & R2 & L2 & T2 & O2 & S2 & A2).
+    destruct (detach_prev_repeat_x gone ts1 _ r tid ri T1' p kd pre0 x (skipn k1 post) Hr1' T1 HG1')
+      as (ts2 & F2 & R2 & L2 & T2 & O2 & S2 & A2 & C2).
     set (T2' := upd_path T1' p (fun _ => Node kd (pre0 ++ x :: skipn k1 post))) in *.
     assert (HG2 : get_path T2' p = Some (Node kd (pre0 ++ x :: skipn k1 post)))
       by (now apply get_path_upd_path with (n := Node kd (pre ++ x :: skipn k1 post))).
     assert (Hr2 : nth_error (map (option_map F2) (map (option_map F1) rs)) r = Some (Some (mk_hnd tid (p ++ [length pre0]))))
       by (rewrite (nth_error_map_reg F2 _ _ _ Hr1'); now rewrite S2).
-    destruct (detach_reg_spec ts2 _ r tid ri T2' p kd pre0 x _ Hr2 T2 HG2)
-      as (ts3 & F3 & R3 & L3 & T3 & N3 & O3 & S3 & A3).
+    destruct (detach_reg_spec_x ts2 _ r tid ri T2' p kd pre0 x _ Hr2 T2 HG2)
+      as (ts3 & F3 & R3 & L3 & T3 & N3 & O3 & S3 & A3 & C3).
     exists ts3, (fun g => F3 (F2 (F1 g))).
     replace (map (option_map (fun g => F3 (F2 (F1 g)))) rs)
       with (map (option_map F3) (map (option_map F2) (map (option_map F1) rs)))
       by (now rewrite !map_option_map_comp).
-    repeat split.
+    assert (Erange := eq_refl (entry_remove_range fixed (pre ++ x :: post) (length pre))).
+    unfold entry_remove_range at 2 in Erange. rewrite firstn_app_len, skipn_S_app_len, Esc, Efirst in Erange.
+    rewrite Erange. cbn [fst snd].
+    split; [|split; [|split; [|split; [|split; [|split; [|split; [|split]]]]]]].
     + apply (Hhead (ret tt)). rbind; [exact R1|]. fold k2. rewrite <- Lgone.
       rbind; [exact R2|]. exact R3.
     + lia.
@@ -1103,6 +1208,29 @@ Proof.
     + exists (length ts2), (length pre0). split; [|exact N3].
       rewrite S1. rewrite Lpre0. now rewrite S2, S3.
     + intros g Hg. rewrite A1, A2, A3; auto.
+    + fold k2. eapply cut_map_bounds; [| |apply (cut_map_comp F1 (fun g => F3 (F2 g)) tid p (S (length pre)) (S (length pre) + k1) (length pre0) (S (length pre0) + length gone) C1)]; try lia.
+      eapply cut_map_bounds; [reflexivity| |apply (cut_map_comp F2 F3 tid p _ _ _ _ C2 C3)]; try lia.
+    + fold k2. lia.
+    + lia.
+Qed.
+
+Lemma entry_remove_spec ts rs r tid ri T p kd pre x post cs' :
+  nth_error rs r = Some (Some (mk_hnd tid (p ++ [length pre]))) ->
+  nth_error ts tid = Some (mk_slot true ri T) ->
+  get_path T p = Some (Node kd (pre ++ x :: post)) ->
+  entry_remove_cs fixed (pre ++ x :: post) (length pre) = Ok cs' ->
+  exists ts' F,
+    runs (entry_remove fixed r) (mk_state ts rs) tt (mk_state ts' (map (option_map F) rs)) /\
+    length ts <= length ts' /\
+    nth_error ts' tid = Some (mk_slot true ri (upd_path T p (fun _ => Node kd cs'))) /\
+    (forall j, j <> tid -> j < length ts -> nth_error ts' j = nth_error ts j) /\
+    (exists tn rn, F (mk_hnd tid (p ++ [length pre])) = mk_hnd tn [] /\
+                   nth_error ts' tn = Some (mk_slot true rn x)) /\
+    (forall g, above tid p g -> F g = g).
+Proof.
+  intros Hr HT HG Hcs.
+  destruct (entry_remove_spec_x ts rs r tid ri T p kd pre x post cs' Hr HT HG Hcs) as (ts' & F & R & L & T' & O & S & A & _).
+  exists ts', F. auto 10.
 Qed.
 
 (* ------------------------------------------------------------------ Relations::remove_entry *)
@@ -1616,6 +1744,68 @@ Qed.
 
 (* ------------------------------------------------------------------ Relation::remove *)
 (* the cleanup loops of Relation::remove *)
+Lemma relation_remove_phase1_x ts rs r tid ri T p kd pre x post cs' :
+  nth_error rs r = Some (Some (mk_hnd tid (p ++ [length pre]))) ->
+  nth_error ts tid = Some (mk_slot true ri T) ->
+  get_path T p = Some (Node kd (pre ++ x :: post)) ->
+  relation_remove_cs (pre ++ x :: post) (length pre) = Ok cs' ->
+  exists ts1 F1 pre1 post1,
+    runs (if negb (existsb is_relation pre) then
+            match relation_remove_scan_next post with
+            | Ok k => m_repeat k (m_detach_next r)
+            | Panic n => m_repeat (ws_prefix_len post) (m_detach_next r) ;; mpanic n
+            | Err e => merr e
+            | OutOfFuel => merr 96
+            end
+          else m_repeat (relation_remove_scan_prev pre) (m_detach_prev r))
+         (mk_state ts rs) tt (mk_state ts1 (map (option_map F1) rs)) /\
+    cs' = pre1 ++ post1 /\
+    length ts <= length ts1 /\
+    nth_error ts1 tid = Some (mk_slot true ri (upd_path T p (fun _ => Node kd (pre1 ++ x :: post1)))) /\
+    (forall j, j <> tid -> j < length ts -> nth_error ts1 j = nth_error ts j) /\
+    F1 (mk_hnd tid (p ++ [length pre])) = mk_hnd tid (p ++ [length pre1]) /\
+    (forall g, above tid p g -> F1 g = g) /\
+    (forall F2, cut_map F2 tid p (length pre1) (S (length pre1)) ->
+       cut_map (fun g => F2 (F1 g)) tid p (fst (relation_remove_range (pre ++ x :: post) (length pre)))
+                                          (snd (relation_remove_range (pre ++ x :: post) (length pre)))) /\
+    fst (relation_remove_range (pre ++ x :: post) (length pre)) <= length pre /\
+    length pre < snd (relation_remove_range (pre ++ x :: post) (length pre)).
+Proof.
+  intros Hr HT HG Hcs. unfold relation_remove_cs in Hcs.
+  rewrite firstn_app_len, skipn_S_app_len in Hcs.
+  destruct (negb (existsb is_relation pre)) eqn:Efirst.
+  - destruct (relation_remove_scan_next post) as [k| | |] eqn:Esc; try discriminate.
+    inversion Hcs; subst cs'; clear Hcs.
+    pose proof (relation_remove_scan_next_le _ _ Esc) as Hk.
+    destruct (detach_next_repeat_x k ts rs r tid ri T p kd pre x post Hr HT HG Hk)
+      as (ts1 & F1 & R1 & L1 & T1 & O1 & S1 & A1 & C1).
+    assert (Erange := eq_refl (relation_remove_range (pre ++ x :: post) (length pre))).
+    unfold relation_remove_range at 2 in Erange. rewrite firstn_app_len, skipn_S_app_len, Efirst, Esc in Erange.
+    rewrite Erange. cbn [fst snd].
+    exists ts1, F1, pre, (skipn k post). split; [|split; [|split; [|split; [|split; [|split; [|split; [|split; [|split]]]]]]]]; auto; try lia.
+    intros F2 C2. eapply cut_map_bounds; [reflexivity| |apply (cut_map_comp F1 F2 tid p _ _ _ _ C1 C2)]; lia.
+  - inversion Hcs; subst cs'; clear Hcs.
+    set (k2 := relation_remove_scan_prev pre) in *.
+    assert (Hk2 : k2 <= length pre) by apply relation_remove_scan_prev_le.
+    set (pre0 := firstn (length pre - k2) pre) in *. set (gone := skipn (length pre - k2) pre).
+    assert (Epre : pre = pre0 ++ gone) by (symmetry; apply firstn_skipn).
+    assert (Lgone : length gone = k2) by (unfold gone; rewrite skipn_length; lia).
+    assert (Lpre0 : length pre = length pre0 + length gone) by (rewrite Epre at 1; apply app_length).
+    assert (Hr' : nth_error rs r = Some (Some (mk_hnd tid (p ++ [length pre0 + length gone]))))
+      by (now rewrite <- Lpre0).
+    assert (HG' : get_path T p = Some (Node kd (pre0 ++ gone ++ x :: post)))
+      by (rewrite app_assoc, <- Epre; exact HG).
+    destruct (detach_prev_repeat_x gone ts rs r tid ri T p kd pre0 x post Hr' HT HG')
+      as (ts1 & F1 & R1 & L1 & T1 & O1 & S1 & A1 & C1).
+    assert (Erange := eq_refl (relation_remove_range (pre ++ x :: post) (length pre))).
+    unfold relation_remove_range at 2 in Erange. rewrite firstn_app_len, skipn_S_app_len, Efirst in Erange.
+    rewrite Erange. cbn [fst snd]. fold k2.
+    exists ts1, F1, pre0, post. split; [|split; [|split; [|split; [|split; [|split; [|split; [|split; [|split]]]]]]]]; auto; try lia.
+    + rewrite <- Lgone. exact R1.
+    + rewrite Lpre0. exact S1.
+    + intros F2 C2. eapply cut_map_bounds; [| |apply (cut_map_comp F1 F2 tid p _ _ _ _ C1 C2)]; lia.
+Qed.
+
 Lemma relation_remove_phase1 ts rs r tid ri T p kd pre x post cs' :
   nth_error rs r = Some (Some (mk_hnd tid (p ++ [length pre]))) ->
   nth_error ts tid = Some (mk_slot true ri T) ->
@@ -1638,34 +1828,13 @@ Lemma relation_remove_phase1 ts rs r tid ri T p kd pre x post cs' :
     F1 (mk_hnd tid (p ++ [length pre])) = mk_hnd tid (p ++ [length pre1]) /\
     (forall g, above tid p g -> F1 g = g).
 Proof.
-  intros Hr HT HG Hcs. unfold relation_remove_cs in Hcs.
-  rewrite firstn_app_len, skipn_S_app_len in Hcs.
-  destruct (negb (existsb is_relation pre)) eqn:Efirst.
-  - destruct (relation_remove_scan_next post) as [k| | |] eqn:Esc; try discriminate.
-    inversion Hcs; subst cs'; clear Hcs.
-    pose proof (relation_remove_scan_next_le _ _ Esc) as Hk.
-    destruct (detach_next_repeat k ts rs r tid ri T p kd pre x post Hr HT HG Hk)
-      as (ts1 & F1 & R1 & L1 & T1 & O1 & S1 & A1).
-    exists ts1, F1, pre, (skipn k post). repeat split; auto.
-  - inversion Hcs; subst cs'; clear Hcs.
-    set (k2 := relation_remove_scan_prev pre) in *.
-    assert (Hk2 : k2 <= length pre) by apply relation_remove_scan_prev_le.
-    set (pre0 := firstn (length pre - k2) pre) in *. set (gone := skipn (length pre - k2) pre).
-    assert (Epre : pre = pre0 ++ gone) by (symmetry; apply firstn_skipn).
-    assert (Lgone : length gone = k2) by (unfold gone; rewrite skipn_length; lia).
-    assert (Lpre0 : length pre = length pre0 + length gone) by (rewrite Epre at 1; apply app_length).
-    assert (Hr' : nth_error rs r = Some (Some (mk_hnd tid (p ++ [length pre0 + length gone]))))
-      by (now rewrite <- Lpre0).
-    assert (HG' : get_path T p = Some (Node kd (pre0 ++ gone ++ x :: post)))
-      by (rewrite app_assoc, <- Epre; exact HG).
-    destruct (detach_prev_repeat gone ts rs r tid ri T p kd pre0 x post Hr' HT HG')
-      as (ts1 & F1 & R1 & L1 & T1 & O1 & S1 & A1).
-    exists ts1, F1, pre0, post. repeat split; auto.
-    + rewrite <- Lgone. exact R1.
-    + rewrite Lpre0. exact S1.
+  intros Hr HT HG Hcs.
+  destruct (relation_remove_phase1_x ts rs r tid ri T p kd pre x post cs' Hr HT HG Hcs)
+    as (ts1 & F1 & pre1 & post1 & R1 & Ecs & L1 & T1 & O1 & S1 & A1 & _).
+  exists ts1, F1, pre1, post1. auto 10.
 Qed.
 
-Lemma relation_remove_spec ts rs r tid ri T ppe kd epre epost pre x post cs' ecs' :
+Lemma relation_remove_spec_x ts rs r tid ri T ppe kd epre epost pre x post cs' ecs' :
   nth_error rs r = Some (Some (mk_hnd tid ((ppe ++ [length epre]) ++ [length pre]))) ->
   nth_error ts tid = Some (mk_slot true ri T) ->
   get_path T ppe = Some (Node kd (epre ++ Node ENTRY (pre ++ x :: post) :: epost)) ->
@@ -1682,15 +1851,25 @@ Lemma relation_remove_spec ts rs r tid ri T ppe kd epre epost pre x post cs' ecs
                    nth_error ts' tn = Some (mk_slot true rn x)) /\
     (exists sl, nth_error ts' (h_tid (F (mk_hnd tid (ppe ++ [length epre])))) = Some sl /\
                 get_path (s_tree sl) (h_path (F (mk_hnd tid (ppe ++ [length epre])))) = Some (Node ENTRY cs')) /\
-    (forall g, above tid ppe g -> F g = g).
+    (forall g, above tid ppe g -> F g = g) /\
+    (if count_if is_relation cs' =? 0
+     then cut_map F tid ppe (fst (entry_remove_range fixed (epre ++ Node ENTRY cs' :: epost) (length epre)))
+                            (snd (entry_remove_range fixed (epre ++ Node ENTRY cs' :: epost) (length epre))) /\
+          fst (entry_remove_range fixed (epre ++ Node ENTRY cs' :: epost) (length epre)) <= length epre /\
+          length epre < snd (entry_remove_range fixed (epre ++ Node ENTRY cs' :: epost) (length epre))
+     else cut_map F tid (ppe ++ [length epre]) (fst (relation_remove_range (pre ++ x :: post) (length pre)))
+                                               (snd (relation_remove_range (pre ++ x :: post) (length pre))) /\
+          fst (relation_remove_range (pre ++ x :: post) (length pre)) <= length pre /\
+          length pre < snd (relation_remove_range (pre ++ x :: post) (length pre)) /\
+          (forall g, above tid (ppe ++ [length epre]) g -> F g = g)).
 Proof.
   intros Hr HT HGp Hcs Hecs.
   set (pe := ppe ++ [length epre]) in *.
   pose proof (nth_error_Some_lt _ _ _ HT) as Hlt.
   assert (HG : get_path T pe = Some (Node ENTRY (pre ++ x :: post)))
     by (eapply get_path_child; [exact HGp|apply nth_error_app_len]).
-  destruct (relation_remove_phase1 ts rs r tid ri T pe ENTRY pre x post cs' Hr HT HG Hcs)
-    as (ts1 & F1 & pre1 & post1 & R1 & Ecs & L1 & T1 & O1 & S1 & A1).
+  destruct (relation_remove_phase1_x ts rs r tid ri T pe ENTRY pre x post cs' Hr HT HG Hcs)
+    as (ts1 & F1 & pre1 & post1 & R1 & Ecs & L1 & T1 & O1 & S1 & A1 & C1 & B1lo & B1hi).
   set (T1' := upd_path T pe (fun _ => Node ENTRY (pre1 ++ x :: post1))) in *.
   assert (HG1 : get_path T1' pe = Some (Node ENTRY (pre1 ++ x :: post1)))
     by (now apply get_path_upd_path with (n := Node ENTRY (pre ++ x :: post))).
@@ -1698,8 +1877,8 @@ Proof.
   set (rs1 := map (option_map F1) rs ++ [Some (mk_hnd tid pe)]).
   assert (Hr1 : nth_error rs1 r = Some (Some (mk_hnd tid (pe ++ [length pre1]))))
     by (unfold rs1; apply nth_error_app_l; rewrite (nth_error_map_reg F1 _ _ _ Hr); now rewrite S1).
-  destruct (detach_reg_spec ts1 rs1 r tid ri T1' pe ENTRY pre1 x post1 Hr1 T1 HG1)
-    as (ts2 & F2 & R2 & L2 & T2 & N2 & O2 & S2 & A2).
+  destruct (detach_reg_spec_x ts1 rs1 r tid ri T1' pe ENTRY pre1 x post1 Hr1 T1 HG1)
+    as (ts2 & F2 & R2 & L2 & T2 & N2 & O2 & S2 & A2 & C2).
   assert (ET2 : upd_path T1' pe (fun _ => Node ENTRY (pre1 ++ post1))
                 = upd_path T ppe (fun _ => Node kd (epre ++ Node ENTRY cs' :: epost))).
   { unfold T1'. rewrite (upd_path_const2 _ _ _ _ _ HG). rewrite <- Ecs. unfold pe.
@@ -1730,8 +1909,8 @@ Proof.
     rbind; [exact R2|]. exact Rt. }
   destruct (count_if is_relation cs' =? 0) eqn:Ecount.
   - (* the entry has no alternative left: it is removed as well *)
-    destruct (entry_remove_spec ts2 (map (option_map F2) rs1) (length rs) tid ri T2' ppe kd epre (Node ENTRY cs') epost ecs'
-                Hrp2 T2 HG2p Hecs) as (ts3 & F3 & R3 & L3 & T3 & O3 & (tn3 & rn3 & S3 & N3) & A3).
+    destruct (entry_remove_spec_x ts2 (map (option_map F2) rs1) (length rs) tid ri T2' ppe kd epre (Node ENTRY cs') epost ecs'
+                Hrp2 T2 HG2p Hecs) as (ts3 & F3 & R3 & L3 & T3 & O3 & (tn3 & rn3 & S3 & N3) & A3 & C3 & B3lo & B3hi).
     exists ts3, (fun g => F3 (F2 (F1 g))).
     assert (Eregs : firstn (length rs) (map (option_map F3) (map (option_map F2) rs1))
                     = map (option_map (fun g => F3 (F2 (F1 g)))) rs).
@@ -1739,7 +1918,7 @@ Proof.
       rewrite <- (map_length (option_map F2) (map (option_map F1) rs)).
       rewrite <- (map_length (option_map F3) (map (option_map F2) (map (option_map F1) rs))).
       rewrite firstn_app_len. now rewrite !map_option_map_comp. }
-    rewrite <- Eregs. repeat split.
+    rewrite <- Eregs. split; [|split; [|split; [|split; [|split; [|split; [|split]]]]]].
     + eapply Hrun; [|reflexivity].
       rbind; [rbind; [apply runs_get_reg; exact Hrp2|]; eapply runs_children_of; [exact T2|exact HG2]|].
       cbn [children]. rewrite Ecount. exact R3.
@@ -1754,6 +1933,11 @@ Proof.
     + intros g Hg. rewrite A1 by (unfold pe; now apply above_deeper).
       rewrite A2 by (unfold pe; now apply above_deeper).
       now apply A3.
+    + split; [|split; [exact B3lo|exact B3hi]]. destruct C3 as [C3a C3b]. split; intros c rest Hc.
+      * rewrite A1 by (unfold pe; apply (above_sibling tid ppe (length epre) c [] rest); lia).
+        rewrite A2 by (unfold pe; apply (above_sibling tid ppe (length epre) c [] rest); lia). now apply C3a.
+      * rewrite A1 by (unfold pe; apply (above_sibling tid ppe (length epre) c [] rest); lia).
+        rewrite A2 by (unfold pe; apply (above_sibling tid ppe (length epre) c [] rest); lia). now apply C3b.
   - (* alternatives remain *)
     inversion Hecs; subst ecs'; clear Hecs.
     exists ts2, (fun g => F2 (F1 g)).
@@ -1761,7 +1945,7 @@ Proof.
     { unfold rs1. rewrite !map_app. rewrite <- (map_length (option_map F1) rs) at 1.
       rewrite <- (map_length (option_map F2) (map (option_map F1) rs)).
       rewrite firstn_app_len. now rewrite map_option_map_comp. }
-    rewrite <- Eregs. repeat split.
+    rewrite <- Eregs. split; [|split; [|split; [|split; [|split; [|split; [|split]]]]]].
     + eapply Hrun; [|reflexivity].
       rbind; [rbind; [apply runs_get_reg; exact Hrp2|]; eapply runs_children_of; [exact T2|exact HG2]|].
       cbn [children]. rewrite Ecount. rdone.
@@ -1773,6 +1957,33 @@ Proof.
       cbn [h_tid h_path]. eexists. split; [exact T2|exact HG2].
     + intros g Hg. rewrite A1 by (unfold pe; now apply above_deeper).
       apply A2. unfold pe; now apply above_deeper.
+    + split; [apply C1; exact C2|]. split; [exact B1lo|]. split; [exact B1hi|].
+      intros g Hg. rewrite A1 by exact Hg. now apply A2.
+Qed.
+
+Lemma relation_remove_spec ts rs r tid ri T ppe kd epre epost pre x post cs' ecs' :
+  nth_error rs r = Some (Some (mk_hnd tid ((ppe ++ [length epre]) ++ [length pre]))) ->
+  nth_error ts tid = Some (mk_slot true ri T) ->
+  get_path T ppe = Some (Node kd (epre ++ Node ENTRY (pre ++ x :: post) :: epost)) ->
+  relation_remove_cs (pre ++ x :: post) (length pre) = Ok cs' ->
+  (if count_if is_relation cs' =? 0
+   then entry_remove_cs fixed (epre ++ Node ENTRY cs' :: epost) (length epre)
+   else Ok (epre ++ Node ENTRY cs' :: epost)) = Ok ecs' ->
+  exists ts' F,
+    runs (relation_remove fixed r) (mk_state ts rs) tt (mk_state ts' (map (option_map F) rs)) /\
+    length ts <= length ts' /\
+    nth_error ts' tid = Some (mk_slot true ri (upd_path T ppe (fun _ => Node kd ecs'))) /\
+    (forall j, j <> tid -> j < length ts -> nth_error ts' j = nth_error ts j) /\
+    (exists tn rn, F (mk_hnd tid ((ppe ++ [length epre]) ++ [length pre])) = mk_hnd tn [] /\
+                   nth_error ts' tn = Some (mk_slot true rn x)) /\
+    (exists sl, nth_error ts' (h_tid (F (mk_hnd tid (ppe ++ [length epre])))) = Some sl /\
+                get_path (s_tree sl) (h_path (F (mk_hnd tid (ppe ++ [length epre])))) = Some (Node ENTRY cs')) /\
+    (forall g, above tid ppe g -> F g = g).
+Proof.
+  intros Hr HT HGp Hcs Hecs.
+  destruct (relation_remove_spec_x ts rs r tid ri T ppe kd epre epost pre x post cs' ecs' Hr HT HGp Hcs Hecs)
+    as (ts' & F & R & L & T' & O & S & E & A & _).
+  exists ts', F. auto 10.
 Qed.
 
 (* [OGetEntry 0 i; OERemoveRel 0 j] on a constructor-built field *)
